@@ -11,6 +11,7 @@ Decided (structure of conf.c):
   P3  the push functions write into their table only after advancing the index (never over a live entry)
   P4  spifconf_parse closes a stream before popping it and pushes only streams it has opened
   I1  no use of an uninitialised local in conf.c (clang's CFG-based analyses)
+  P5  no call passes a NULL constant to a parameter its callee ASSERT-guards (the <argv> push must be accepted)
 Not decided: exactly-once in-order delivery, trimming, include ordering."""
 from .. import facts, expr as X, confrules as R
 from ..report import Check
